@@ -954,6 +954,75 @@ theorem runOp_consistent (env : Env J S C) (cfg : Cfg) (st : Stats) (op : Op) (h
     · simp only [runOp, statsOf, hf]; exact consistent_fail st _ h
     · simp only [runOp, statsOf, hf]; exact consistent_hit st pre s h
 
+/-! ### the healing loop -/
+
+theorem foldX_total (env : Env J S C) (cfg : Cfg) (st : Stats) (raw : Text) (call : List Strategy) :
+    ∃ p, (foldX env cfg st raw call).res = .ok p := by
+  rcases foldBoth_spec env cfg st raw call with ⟨tr, _, hx, _⟩ | ⟨tpre, pre, s, post, x, _, _, _, _, hx, _⟩
+  · exact ⟨_, by rw [hx]⟩
+  · exact ⟨_, by rw [hx]⟩
+
+/-- the failed attempts numbered k, k+1, … -/
+def failedAtts (k n : Nat) : List HealAtt := (List.range' k n).map fun i => ⟨i, false, 0⟩
+
+/-- what the healing loop does with a valid fold obtained at attempt `j` -/
+def healedFold (decay : Rat) (j : Nat) (r : FoldedX S C) : FoldedX S C :=
+  ⟨r.valid, r.struct, r.raw, r.err, r.attempts, ratMin r.confidence (healCeiling decay j), r.coercions, r.strategyUsed⟩
+
+/-- Complete description of the healing loop: it never raises; either every attempt misfolded (one failed
+    record per attempt, nothing returned), or the result is the first valid fold, at some attempt `j` within the
+    budget, with its confidence capped by the ceiling of that attempt. -/
+theorem healFrom_spec (env : Env J S C) (cfg : Cfg) (decay : Rat) (gen : Nat → Text) :
+    ∀ (fuel k : Nat) (st : Stats) (atts : List HealAtt),
+    ∃ st' h, (healFrom env cfg decay gen fuel k st atts).res = .ok (st', h) ∧
+      ((h.outcome = .degraded ∧ h.folded = none ∧ h.finalConfidence = 0 ∧ h.tagged = true ∧
+          h.attempts = atts ++ failedAtts k fuel) ∨
+       (∃ j stj stj' r, k ≤ j ∧ j < k + fuel ∧ (foldX env cfg stj (gen j) []).res = .ok (stj', r) ∧ r.valid = true ∧
+          h.folded = some (healedFold decay j r) ∧
+          h.finalConfidence = ratMin r.confidence (healCeiling decay j) ∧ h.tagged = false ∧
+          h.outcome = (if j = 0 then .validFirstTry else .healed) ∧
+          h.attempts = atts ++ failedAtts k (j - k) ++ [⟨j, true, healCeiling decay j⟩])) := by
+  intro fuel
+  induction fuel with
+  | zero =>
+    intro k st atts
+    exact ⟨st, _, rfl, Or.inl ⟨rfl, rfl, rfl, rfl, by simp [failedAtts]⟩⟩
+  | succ fuel ih =>
+    intro k st atts
+    obtain ⟨p, hp⟩ := foldX_total env cfg st (gen k) []
+    rcases hx : foldX env cfg st (gen k) [] with ⟨t, res⟩
+    rw [hx] at hp
+    simp at hp
+    subst hp
+    unfold healFrom
+    rw [hx]
+    by_cases hv : p.2.valid = true
+    · refine ⟨p.1, ⟨if k = 0 then .validFirstTry else .healed, some (healedFold decay k p.2),
+          atts ++ [⟨k, true, healCeiling decay k⟩], ratMin p.2.confidence (healCeiling decay k), false⟩,
+        by simp [hv, healedFold],
+        Or.inr ⟨k, st, p.1, p.2, Nat.le_refl _, by omega, by rw [hx], hv, rfl, rfl, rfl, rfl, ?_⟩⟩
+      simp [failedAtts]
+    · obtain ⟨st', h, hres, hcase⟩ := ih (k + 1) p.1 (atts ++ [⟨k, false, 0⟩])
+      refine ⟨st', h, by simp [hv, hres], ?_⟩
+      rcases hcase with ⟨h1, h2, h3, h4, h5⟩ | ⟨j, stj, stj', r, hkj, hjf, hfold, hrv, h2, h3, h4, h5, h6⟩
+      · refine Or.inl ⟨h1, h2, h3, h4, ?_⟩
+        rw [h5]
+        simp [failedAtts, List.range'_succ]
+      · refine Or.inr ⟨j, stj, stj', r, by omega, by omega, hfold, hrv, h2, h3, h4, h5, ?_⟩
+        rw [h6]
+        have hjk : j - k = (j - (k + 1)) + 1 := by omega
+        rw [hjk]
+        simp [failedAtts, List.range'_succ]
+
+theorem healCeiling_nonneg (decay : Rat) (k : Nat) : 0 ≤ healCeiling decay k := by
+  unfold healCeiling ratMax
+  split <;> grind
+
+theorem healCeiling_zero (decay : Rat) : healCeiling decay 0 = 1 := by
+  unfold healCeiling ratMax
+  simp
+  grind
+
 /-! ### the coercion helper -/
 
 section Coercion
